@@ -706,15 +706,17 @@ def main(run, replay=None):
             continue
         if "unsupported" in res:
             unsupported += 1
-            run.report({"kind": "unsupported-node"}, "the serialiser met an object outside its grammar: %s" % res["unsupported"],
-                       case, found_input=False, theorem_or_case="C18 serialiser (fail-closed)")
+            if unsupported == 1:
+                run.report({"kind": "unsupported-node"}, "the serialiser met an object outside its grammar: %s" % res["unsupported"],
+                           case, found_input=False, theorem_or_case="C18 serialiser (fail-closed)")
             continue
         try:
             text, labels = case_module(ci, case, res)
         except ValueError as e:
             unsupported += 1
-            run.report({"kind": "unsupported-node"}, "case could not be written in Gallina: %s" % e, case,
-                       observed=res, found_input=False, theorem_or_case="C18 serialiser (fail-closed)")
+            if unsupported == 1:
+                run.report({"kind": "unsupported-node"}, "case could not be written in Gallina: %s" % e, case,
+                           observed=res, found_input=False, theorem_or_case="C18 serialiser (fail-closed)")
             continue
         chunk.append((ci, text, labels))
         nchk += len(labels)
